@@ -1421,6 +1421,12 @@ impl Universe {
                     }
                 }
             }
+            // a plain errno on close(2) would leave the descriptor open and manufacture a leak: never
+            // (a placement can land on a close when the fault-free trace it was derived from has drifted)
+            if nr == libc::SYS_close && matches!(fault, Some(Fault::Errno(_))) {
+                fault = None;
+                out.probe("fault_placement_landed_on_close(ignored)");
+            }
             let mut after_close_err: Option<i32> = None;
             if let Some(f) = &fault {
                 match f {
